@@ -996,7 +996,9 @@ fn elf_units(prop: &'static str, tier: Tier) -> Vec<Unit> {
         "{} generated ELF32-BE files, factorised so that each factor is a full product around a default layout: segment layouts (1-4 PT_LOAD, sizes/gaps from a small set incl. 0/1/3/4/0x71/0x1271, filesz <= memsz, file offsets not in address order), 0-2 non-load program headers in every position incl. last, all 120 orders of .shstrtab/.got/.stack/.symtab/.strtab x filler sections, .got of 0-3 and 64 entries at aligned/unaligned positions with carrying values, stack sizes 0-64 KiB, empty PT_LOAD entries sharing an address with / inside / between other segments, (C11 only: files without .stack whose last segment and GOT reach the last bytes of DRAM; three file-backed segments in all 6 table x 6 file x 6 memory orders with sizes, file paddings and memory gaps from one small set so that they coincide), symbol tables of 1-200 symbols with ___exit first/middle/last among decoys and names that extend ___exit, argument strings (all separator patterns x 0-3 words, 32 words, every printable ASCII character)",
         n
     );
-    vec![Unit::new("files", chunks, &dom, move |ctx, chunk| {
+    let mk = |name: &str, dom: &str, trace: bool| Unit::new(name, chunks, dom, move |ctx, chunk| {
+        // second pass: the loader's own log lines are enabled at every level and their arguments evaluated
+        crate::hv::panics::eval_log_args(trace);
         let all = specs_for(prop, tier);
         let (lo, hi) = chunk_range(all.len() as u64, chunks, chunk);
         let mut ld = Loader::new(&format!("{}-{}", prop, chunk));
@@ -1021,8 +1023,9 @@ fn elf_units(prop: &'static str, tier: Tier) -> Vec<Unit> {
                     ctx.machinery(mm.to_string());
                     return;
                 }
-                ctx.custom_violation("elf", msg, json!({"prop": prop, "spec": spec.to_json()}), json!(null), json!(null));
+                ctx.custom_violation("elf", msg, json!({"prop": prop, "spec": spec.to_json(), "trace_logging": trace}), json!(null), json!(null));
                 if ctx.stop {
+                    crate::hv::panics::eval_log_args(false);
                     return;
                 }
             }
@@ -1030,7 +1033,9 @@ fn elf_units(prop: &'static str, tier: Tier) -> Vec<Unit> {
                 ctx.sample(json!({"spec": spec.to_json()}));
             }
         }
-    })]
+        crate::hv::panics::eval_log_args(false);
+    });
+    vec![mk("files", &dom, false), mk("files-with-trace-logging", &format!("the same files loaded with trace logging enabled and every log argument evaluated by a formatting logger (the result must not depend on the log level): {}", dom), true)]
 }
 
 pub fn c11(tier: Tier, _seed: u64) -> Prop {
@@ -1081,6 +1086,7 @@ pub fn replay_elf(case: &Value) -> bool {
         }
     };
     let mut ld = Loader::new("replay");
+    crate::hv::panics::eval_log_args(case["trace_logging"].as_bool().unwrap_or(false));
     let prop = case["prop"].as_str().unwrap_or("C11").to_string();
     match ld.load(&spec) {
         Ok(cpu) => {
